@@ -252,3 +252,11 @@ Proof.
   exists d1_witness. intros pf ns.
   destruct (d1_witness_outcomes pf ns) as (H1 & H2 & H3). auto.
 Qed.
+
+(* Model/LexerLegacy.v evaluates indices with the range test first; it is the same function *)
+Lemma index_checked_fast_eq (l : str) (i : N) : index_checked_fast l i = index_checked l i.
+Proof.
+  unfold index_checked_fast, index_checked.
+  destruct (N.ltb_spec i (N.of_nat (length l))) as [Hlt|Hge]; [reflexivity|].
+  symmetry. apply nth_error_None. lia.
+Qed.
